@@ -9,14 +9,14 @@ import math
 
 TITLE = 'WMO conversions'
 EXPLORER = 'E1'
-CLAUSES = ['C18.p2o_value', 'C18.p2o_monotone', 'C18.p2o_range', 'C18.p2o_array', 'C18.p2o_tie',
+CLAUSES = ['C18.p2o_dtypes', 'C18.p2o_value', 'C18.p2o_monotone', 'C18.p2o_range', 'C18.p2o_array', 'C18.p2o_tie',
            'C18.o2c_table', 'C18.o2c_refuse', 'C18.h2c_floor', 'C18.h2c_monotone', 'C18.h2c_boundary']
 RULE = ('perc2okta: every pair 0<=n<=m<=M as the float n/m*100 (python float, python int when exact, '
-        'and one ndarray call per m); okta2code: integers -2..11 and a menu of non-int values; '
+        'and one ndarray call per m; whole-number percentages in 11 numpy dtypes); okta2code: integers -2..11 and a menu of non-int values; '
         'height2code: every integer foot in [0,1e5) as int and float plus +-1,+-2 ulp around every '
         'coding boundary. distinct_nontrivial = distinct (function, output) pairs observed')
 ASSUMPTIONS = ['ties at x.5 okta accept both neighbouring oktas ("nearest")',
-               'numpy scalars / bools fed to okta2code and NaN fed to perc2okta are not judged']
+               'numpy scalars / bools fed to okta2code, numpy scalars other than float64 and NaN fed to perc2okta are not judged (documented input: int|float|ndarray)']
 
 
 def bound(tier):
@@ -31,6 +31,7 @@ def cases(tier):
     for lo in range(1, M + 1, step):
         out.append({'fn': 'perc2okta', 'm_lo': lo, 'm_hi': min(lo + step - 1, M)})
     out.append({'fn': 'perc2okta_refuse'})
+    out.append({'fn': 'perc2okta_dtypes'})
     out.append({'fn': 'okta2code'})
     for lo in range(0, 100000, 5000):
         out.append({'fn': 'height2code', 'lo': lo, 'hi': lo + 5000})
@@ -140,6 +141,26 @@ def run_case(case):
                 viol('C18.p2o_array', 'wmo.perc2okta', {'m': m, 'array_result': repr(ga_l)[:300], 'scalar_results': repr(scal)[:300],
                                                          'input_mutated': not np.array_equal(arr, keep)},
                      {'fn': 'perc2okta', 'm_lo': m, 'm_hi': m})
+    elif fn == 'perc2okta_dtypes':
+        # whole-number percentages (m = 100, 50, 25, 20, 10, 5, 4, 2, 1) held in every numeric numpy dtype, as an array (numpy SCALARS other than
+        # float64 are not among the documented input types int|float|ndarray: perc2okta(np.int8(0)) raises IndexError on the unchanged tree; not judged)
+        for m in (100, 50, 25, 20, 10, 5, 4, 2, 1):
+            ns = list(range(m + 1))
+            percs = [100 * n // m for n in ns]
+            accs = [accept_oktas(n, m) for n in ns]
+            for dt in ('int8', 'uint8', 'int16', 'uint16', 'int32', 'uint32', 'int64', 'uint64', 'float16', 'float32', 'float64'):
+                arr = np.array(percs, dtype=dt)
+                keep = arr.copy()
+                hit('C18.p2o_dtypes')
+                res['n'] += 1
+                try:
+                    got = [int(x) for x in wmo.perc2okta(arr)]
+                except Exception as e:
+                    got = 'EXC:' + repr(e)[:80]
+                if not isinstance(got, list) or len(got) != len(ns) or any(g not in a for g, a in zip(got, accs)) or not np.array_equal(arr, keep):
+                    viol('C18.p2o_dtypes', 'wmo.perc2okta', {'m': m, 'dtype': dt, 'percentages': percs[:12], 'got': repr(got)[:200],
+                                                             'accepted': [sorted(a) for a in accs][:12]})
+                res['digests'].add(f'p2o:{dt}')
     elif fn == 'perc2okta_refuse':
         bad = [-1e-9, -0.1, -1, 100.0000001, 100.1, 101, 1e6, -1e6, np.nextafter(100.0, 200.0), np.nextafter(0.0, -1.0),
                np.array([50.0, 100.1]), np.array([-0.1, 50.0])]
